@@ -1377,6 +1377,8 @@ impl Engine for E1U {
         sim.ctx.add("f1_quote_gaps_in_world", st.gaps);
         sim.ctx.add("f2_price_jumps_in_world", st.jumps);
         sim.ctx.add("f3_irregular_date_steps", st.irregular_dates);
+        sim.ctx.add("datasets_loaded_symbol_by_symbol", st.by_symbol);
+        sim.ctx.add("datasets_loaded_through_serde", st.via_serde);
         sim.ctx.add("crossed_quotes_in_world", st.crossed);
         if path == Path::Json {
             sim.ctx.bump("runs_json_path");
